@@ -95,6 +95,7 @@ def role(exc, block_exc):
 
 BLOCK_REF = [None]
 STACK_REF = [None]  # the stack of the program that is running (library side only)
+AW_VALUES = [False]  # do the managers of the program that is running hand out awaitable handles
 
 
 def behave(i, behaviour, received):
@@ -157,6 +158,22 @@ def cb_args(style, i):
     return ("arg", i), dict(CB_KW, kw=i)
 
 
+def _enter_value(i):
+    """what ``__enter__`` / ``__aenter__`` hand out: a plain tuple, or - case flag "aw_values" - a handle that is itself
+    awaitable (a job, a future): the with statement binds it as it is, nobody awaits it"""
+    if AW_VALUES[0]:
+        from ..values import AwaitableItem
+
+        return AwaitableItem(("value", i))
+    return ("value", i)
+
+
+def _seen(value):
+    from ..values import AwaitableItem
+
+    return ("awaitable-handle", value.uid) if isinstance(value, AwaitableItem) else value
+
+
 def entry_objects(i, kind, behaviour, log, block_ref, cb_style="full"):
     """(thing to register on the stack, equivalent context manager for the nested reference)"""
 
@@ -177,7 +194,7 @@ def entry_objects(i, kind, behaviour, log, block_ref, cb_style="full"):
                 raise New(("enter", i))
             if behaviour == "enter-fails-attr":
                 raise EnterAttributeError(("enter", i))
-            return ("value", i)
+            return _enter_value(i)
 
         async def __aexit__(self, et, ev, tb):
             record(ev)
@@ -191,7 +208,7 @@ def entry_objects(i, kind, behaviour, log, block_ref, cb_style="full"):
                 raise New(("enter", i))
             if behaviour == "enter-fails-attr":
                 raise EnterAttributeError(("enter", i))
-            return ("value", i)
+            return _enter_value(i)
 
         def __exit__(self, et, ev, tb):
             record(ev)
@@ -319,7 +336,7 @@ async def run_stack(case, log):
             for how, thing in things:
                 if how == "enter":
                     value = await stack.enter_context(thing)
-                    log.append(("entered", value))
+                    log.append(("entered", _seen(value)))
                 elif how == "push":
                     returned = stack.push(thing)
                     if returned is not thing:
@@ -353,12 +370,12 @@ def nested_function(hows):
             lines.append(f"{indent}{'async ' if how == 'async' else ''}with cms[{i}] as value{i}:")  # sync | sync-quiet | async
             indent += "    "
             if how == "sync":
-                lines.append(f"{indent}log.append(('entered', value{i}))")
+                lines.append(f"{indent}log.append(('entered', seen(value{i})))")
             else:
                 lines.append(f"{indent}if value{i} is not None:")
-                lines.append(f"{indent}    log.append(('entered', value{i}))")
+                lines.append(f"{indent}    log.append(('entered', seen(value{i})))")
         lines.append(f"{indent}block()")
-        scope = {}
+        scope = {"seen": _seen}
         exec("\n".join(lines), scope)  # noqa: S102 - source generated from a tuple of 'sync'/'async'
         fn = _NESTED[hows] = scope["nested"]
     return fn
@@ -386,8 +403,12 @@ async def run_nested(case, log):
 def check_program(case):
     alog, slog = [], []
     ctx = Ctx("a")
-    got = expect_return(run(ctx, run_stack(case, alog)), "C14/program")
-    want = expect_return(run(Ctx("s"), run_nested(case, slog)), "C14/reference")
+    AW_VALUES[0] = bool(case.get("aw_values"))
+    try:
+        got = expect_return(run(ctx, run_stack(case, alog)), "C14/program")
+        want = expect_return(run(Ctx("s"), run_nested(case, slog)), "C14/reference")
+    finally:
+        AW_VALUES[0] = False
     desc = f"entries={case['entries']} block={case['block']}"
     if alog != slog:
         for i, (x, y) in enumerate(itertools.zip_longest(alog, slog)):
@@ -424,6 +445,8 @@ def small_programs():
                 out.append({"entries": [list(e) for e in entries], "block": block})
                 if any(k.startswith("callback") for k, _ in entries):
                     out.append({"entries": [list(e) for e in entries], "block": block, "cb_style": "bare"})
+                if n == 1 and entries[0][0] in ("acm", "scm", "dual"):
+                    out.append({"entries": [list(e) for e in entries], "block": block, "aw_values": True})
     return out
 
 
@@ -438,7 +461,8 @@ def programs(draw, lo, hi):
         if src[1] not in ("enter-fails", "enter-fails-attr", "close-own"):
             entries[j] = [src[0].replace("+same", "") + "+same", src[1]]
     return {"entries": entries, "block": draw(st.sampled_from(["normal", "raises"])),
-            "cb_style": draw(st.sampled_from(["full", "bare", "bare", "pos", "kw"]))}
+            "cb_style": draw(st.sampled_from(["full", "bare", "bare", "pos", "kw"])),
+            "aw_values": draw(st.sampled_from([False, False, True]))}
 
 
 def program_nontrivial(case):
